@@ -5,91 +5,137 @@ import FlexVerif.Gen.Proc
   flex is a tree of processes: the main process writes the scanner text into a pipe; its children
   are the header "tee", m4 and the #line fixer (which writes the scanner file); the tee in turn
   has an m4 and a #line fixer of its own that write the header file.  A process that cannot write
-  exits non-zero (`lerr` ends in `flexerror`, i.e. `exit(1)`).  What the user sees is the main
-  process's status, so each parent has to fold its children's statuses into its own.
+  exits non-zero (`lerr` ends in `flexerror`, i.e. `exit(1)`) or is killed by a signal (SIGXFSZ
+  at a file-size limit, SIGPIPE when its reader died).  What the user sees is the main process's
+  status, so each parent has to fold its children's wait statuses — both kinds — into its own.
 -/
 namespace FlexVerif.Proc
 
-/-- a process: did it fail by itself (write error, m4 error, …), does it look at its children's
-    exit statuses, its children -/
+/-- how a process ends, as its parent's `wait` sees it -/
+inductive Outcome where
+  | ok        -- exited with status 0
+  | err       -- exited with a non-zero status
+  | killed    -- terminated by a signal
+deriving DecidableEq, Repr
+
+/-- which wait statuses of its children a parent treats as failure
+    (the condition after `wait(&status)` evaluated on the three kinds of status) -/
+structure Fold where
+  countsErr : Bool
+  countsKilled : Bool
+deriving DecidableEq, Repr
+
+def Fold.full (f : Fold) : Bool := f.countsErr && f.countsKilled
+
+/-- a process: how it ends by itself (write error, m4 error, signal, …), how it looks at its
+    children's statuses, its children -/
 inductive PNode where
-  | mk (ownFailure : Bool) (folds : Bool) (children : List PNode)
+  | mk (own : Outcome) (fold : Fold) (children : List PNode)
 
 mutual
-def exitStatus : PNode → Nat
-  | .mk own folds cs => if own then 1 else if folds && anyFails cs then 1 else 0
-def anyFails : List PNode → Bool
+/-- the wait status of a process: its own failure, else failure if it notices a failed child -/
+def status : PNode → Outcome
+  | .mk own f cs =>
+    match own with
+    | .ok => if seesFailure f cs then .err else .ok
+    | o => o
+def seesFailure (f : Fold) : List PNode → Bool
   | [] => false
-  | c :: cs => exitStatus c != 0 || anyFails cs
+  | c :: cs =>
+    (match status c with
+      | .ok => false
+      | .err => f.countsErr
+      | .killed => f.countsKilled) || seesFailure f cs
 end
 
 mutual
 /-- no process of the tree failed -/
 def allOk : PNode → Bool
-  | .mk own _ cs => !own && allOkList cs
+  | .mk own _ cs => (own == .ok) && allOkList cs
 def allOkList : List PNode → Bool
   | [] => true
   | c :: cs => allOk c && allOkList cs
 end
 
 mutual
-/-- every process that has children folds their statuses -/
+/-- every process that has children counts both kinds of failure -/
 def allFold : PNode → Bool
-  | .mk _ folds cs => (folds || cs.isEmpty) && allFoldList cs
+  | .mk _ f cs => (f.full || cs.isEmpty) && allFoldList cs
 def allFoldList : List PNode → Bool
   | [] => true
   | c :: cs => allFold c && allFoldList cs
 end
 
 mutual
-theorem exit_zero_aux : (n : PNode) → allFold n = true → exitStatus n = 0 → allOk n = true
-  | .mk own folds cs, hf, he => by
+theorem exit_zero_aux : (n : PNode) → allFold n = true → status n = .ok → allOk n = true
+  | .mk own f cs, hf, he => by
     simp only [allFold, Bool.and_eq_true, Bool.or_eq_true] at hf
-    simp only [exitStatus] at he
+    simp only [status] at he
     cases own with
-    | true => simp at he
-    | false =>
-      simp only [Bool.false_eq_true, if_false] at he
-      simp only [allOk, Bool.not_false, Bool.true_and]
+    | err => simp at he
+    | killed => simp at he
+    | ok =>
+      simp only at he
+      simp only [allOk, beq_self_eq_true, Bool.true_and]
       cases cs with
       | nil => rfl
       | cons c cs' =>
-        have hfold : folds = true := by
+        have hfull : f.full = true := by
           rcases hf.1 with h | h
           · exact h
           · simp at h
-        simp only [hfold, Bool.true_and] at he
-        have hany : anyFails (c :: cs') = false := by
-          cases h : anyFails (c :: cs') with
+        have hsee : seesFailure f (c :: cs') = false := by
+          cases h : seesFailure f (c :: cs') with
           | false => rfl
           | true => simp [h] at he
-        exact exit_zero_list (c :: cs') hf.2 hany
-theorem exit_zero_list : (cs : List PNode) → allFoldList cs = true → anyFails cs = false → allOkList cs = true
+        exact exit_zero_list f hfull (c :: cs') hf.2 hsee
+theorem exit_zero_list (f : Fold) (hfull : f.full = true) :
+    (cs : List PNode) → allFoldList cs = true → seesFailure f cs = false → allOkList cs = true
   | [], _, _ => rfl
   | c :: cs, hf, ha => by
     simp only [allFoldList, Bool.and_eq_true] at hf
-    simp only [anyFails, Bool.or_eq_false_iff, bne_eq_false_iff_eq, beq_iff_eq] at ha
+    simp only [seesFailure, Bool.or_eq_false_iff] at ha
     simp only [allOkList, Bool.and_eq_true]
-    exact ⟨exit_zero_aux c hf.1 (by simpa using ha.1), exit_zero_list cs hf.2 ha.2⟩
+    have hc : status c = .ok := by
+      simp only [Fold.full, Bool.and_eq_true] at hfull
+      cases h : status c with
+      | ok => rfl
+      | err => rw [h] at ha; simp [hfull.1] at ha
+      | killed => rw [h] at ha; simp [hfull.2] at ha
+    exact ⟨exit_zero_aux c hf.1 hc, exit_zero_list f hfull cs hf.2 ha.2⟩
 end
 
-/-- **Exit status 0 only if nothing failed**: in a tree where every parent folds its children's
-    statuses, a zero status of the root means no process reported a failure — in particular no
-    output file was left unwritten. -/
-theorem exit_zero_only_if_complete (n : PNode) (hf : allFold n = true) (he : exitStatus n = 0) :
+/-- **Exit status 0 only if nothing failed**: in a tree where every parent counts both a
+    non-zero exit and a death by signal of a child as failure, a zero status of the root means
+    no process failed in either way — in particular no output file was left unwritten. -/
+theorem exit_zero_only_if_complete (n : PNode) (hf : allFold n = true) (he : status n = .ok) :
     allOk n = true := exit_zero_aux n hf he
 
-/-- flex's process tree with a header file requested; failures are parameters -/
-def flexTree (mainFails teeFails m4cFails fixcFails m4hFails fixhFails : Bool) : PNode :=
-  .mk mainFails Gen.mainFoldsChildren
-    [ .mk teeFails Gen.teeFoldsChildren [ .mk m4hFails true [], .mk fixhFails true [] ],
-      .mk m4cFails true [],
-      .mk fixcFails true [] ]
+/-- the two parents of flex's tree, as re-extracted from the current main.c / filter.c -/
+def mainFold : Fold := ⟨Gen.mainCountsErr, Gen.mainCountsKilled⟩
+def teeFold : Fold := ⟨Gen.teeCountsErr, Gen.teeCountsKilled⟩
+def leaf : Fold := ⟨true, true⟩
 
-/-- **flex's own tree is honest** — decided on the folding behaviour re-extracted from the
-    current main.c / filter.c: whatever fails, status 0 implies that nothing failed. -/
-theorem flex_tree_honest :
-    ∀ a b c d e f : Bool, exitStatus (flexTree a b c d e f) = 0 → allOk (flexTree a b c d e f) = true := by
-  decide
+/-- flex's process tree with a header file requested; how each process ends is a parameter -/
+def flexTree (main tee m4c fixc m4h fixh : Outcome) : PNode :=
+  .mk main mainFold
+    [ .mk tee teeFold [ .mk m4h leaf [], .mk fixh leaf [] ],
+      .mk m4c leaf [],
+      .mk fixc leaf [] ]
+
+/-- **flex's own tree is honest** — on the folding conditions re-extracted from the current
+    sources: however each process ends (normally, with an error, by a signal), status 0 of flex
+    implies that none of them failed. -/
+theorem flex_tree_honest (a b c d e f : Outcome) :
+    status (flexTree a b c d e f) = .ok → allOk (flexTree a b c d e f) = true :=
+  exit_zero_only_if_complete _ (by
+    simp only [flexTree, allFold, allFoldList, List.isEmpty_nil, List.isEmpty_cons, Bool.or_true,
+      Bool.or_false, Bool.and_true, Bool.true_and]
+    decide)
+
+/-- non-vacuity: a run in which nothing fails does end with status 0, and a killed #line fixer
+    of the header makes the status non-zero -/
+example : status (flexTree .ok .ok .ok .ok .ok .ok) = .ok := by decide
+example : status (flexTree .ok .ok .ok .ok .ok .killed) = .err := by decide
 
 end FlexVerif.Proc
